@@ -53,12 +53,15 @@ def unframe(chunk):
 
 
 class FakeSock(object):
-    def __init__(self, fabric, owner):
+    def __init__(self, fabric, owner, alloc=True):
         self.fabric = fabric
         self.owner = owner
-        self.fd = fabric.next_fd
-        fabric.next_fd += 1
-        fabric.socks[self.fd] = self
+        self.sid = fabric.next_sid           # identity of the socket for the scripts (never reused)
+        fabric.next_sid += 1
+        fabric.socks[self.sid] = self
+        # descriptor NUMBER in the owner's process: allocated like the OS does (see Fabric.alloc_fd); a socket in the
+        # accept backlog gets its number when accept() returns it
+        self.fd = fabric.alloc_fd(owner) if alloc else None
         self.kind = "new"            # new | connecting | established | listening | failed
         self.dest = None
         self.wire = None             # Wire once the SYN was accepted
@@ -100,6 +103,7 @@ class FakeSock(object):
         if not self.acceptq:
             raise OSError(_errno.EAGAIN, "again")
         s = self.acceptq.popleft()
+        s.fd = self.fabric.alloc_fd(s.owner)
         return s, ("peer", 0)
 
     def connect(self, addr):
@@ -113,7 +117,7 @@ class FakeSock(object):
 
     def send(self, data):
         oc = self.fabric.send_outcomes.popleft() if self.fabric.send_outcomes else "ok"
-        self.fabric.sends.append((self.owner, self.fd, oc))
+        self.fabric.sends.append((self.owner, self.sid, oc))
         if oc == "fail":
             raise OSError(_errno.ECONNRESET, "reset")
         if self.kind == "connecting":
@@ -136,6 +140,8 @@ class FakeSock(object):
         if self.closed:
             return
         self.closed = True
+        if self.fd is not None:
+            self.fabric.free_fd(self.owner, self.fd, getattr(self, "inc", None))
         if self.kind == "listening":
             self.fabric.listeners.pop(self.dest[1], None)
         if self.wire is not None:
@@ -216,7 +222,12 @@ class IdentityResolver(object):
 class Fabric(object):
     def __init__(self):
         self.now = 4096
-        self.next_fd = 100
+        self.next_sid = 100
+        self.fd_mode = "lowest"      # "lowest": lowest free number, reused after close (what the OS does);
+                                     # "monotone": never reused
+        self.fdtab = {}              # owner -> set of open descriptor numbers (one table per process)
+        self.fdnext = {}
+        self.fdinc = {}              # owner -> incarnation the table belongs to
         self.socks = {}
         self.listeners = {}          # port -> listening FakeSock
         self.cur = None              # owner index while a transport is executing
@@ -229,11 +240,33 @@ class Fabric(object):
     def time(self):
         return self.now / TU
 
+    def alloc_fd(self, owner):
+        tab = self.fdtab.setdefault(owner, set())
+        if self.fd_mode == "lowest":
+            n = 3
+            while n in tab:
+                n += 1
+        else:
+            n = self.fdnext.get(owner, 3)
+            self.fdnext[owner] = n + 1
+        tab.add(n)
+        return n
+
+    def free_fd(self, owner, fd, inc=None):
+        if inc is not None and self.fdinc.get(owner, 0) != inc:
+            return                   # a socket of a process that no longer exists
+        self.fdtab.setdefault(owner, set()).discard(fd)
+
+    def new_process(self, owner, inc):
+        self.fdtab[owner] = set()
+        self.fdnext[owner] = 3
+        self.fdinc[owner] = inc
+
     def connect_imm_fail(self, owner, addr):
         return addr[1] in self.imm_fail
 
     def log_connect(self, sock):
-        self.connects.append((sock.owner, sock.fd, sock.dest[1]))
+        self.connects.append((sock.owner, sock.sid, sock.dest[1]))
 
 
 class DummySyncObj(object):
@@ -266,6 +299,7 @@ class World(object):
         self.out = []
         self.transports = []
         self.sobjs = []
+        self.last_fd = {}             # id(TcpConnection) -> descriptor number its last socket had
         self.conn_ids = {}            # id(TcpConnection) -> (owner, seq)
         self.conn_objs = []           # per owner: list of TcpConnection in creation order
         self.view = []                # per owner: set of node keys for which the last callback was "connected"
@@ -431,6 +465,11 @@ class World(object):
             fab.cur = None
             fab.imm_fail = set()
             fab.send_outcomes = collections.deque()
+            if isinstance(i, int) and i < len(self.conn_objs):
+                for c in self.conn_objs[i]:
+                    sk = c._TcpConnection__socket
+                    if sk is not None and sk.fd is not None:
+                        self.last_fd[id(c)] = sk.fd
         return r, list(self.out)
 
     def conn_sock(self, conn):
@@ -490,8 +529,9 @@ RST = "RST"
 
 
 class Sim(World):
-    def __init__(self, repo, n, readonly=(), retry=2048, timeout=4096, members=None):
+    def __init__(self, repo, n, readonly=(), retry=2048, timeout=4096, members=None, fds="lowest"):
         World.__init__(self, repo, n, readonly=readonly, retry=retry, timeout=timeout, members=members)
+        self.fabric.fd_mode = fds     # constructors create no sockets, so setting it here covers every allocation
         self.members = [set(j for j in range(n) if j != i and j not in self.readonly) for i in range(n)] \
             if members is None else [set(m) for m in members]
         self.wires = []
@@ -531,9 +571,11 @@ class Sim(World):
         return "%s %d" % ("T" if key[0] == "tcp" else "R", key[1])
 
     # ---- lookups -------------------------------------------------------------------------------
-    def cid_of_fd(self, i, fd):
+    def cid_of_sock(self, i, sock):
+        """The connection object of transport i that currently owns this socket (identity, not descriptor number:
+        numbers are reused)."""
         for cid, c in enumerate(self.conn_objs[i]):
-            if c.fileno() == fd:
+            if c._TcpConnection__socket is sock:
                 return cid
         return None
 
@@ -577,7 +619,7 @@ class Sim(World):
         if lst is None:
             return None
         j = lst.owner
-        ss = FakeSock(self.fabric, j)
+        ss = FakeSock(self.fabric, j, alloc=False)
         ss.inc = self.incarnation[j]
         ss.kind = "established"
         w = Wire(sock, ss)
@@ -598,7 +640,7 @@ class Sim(World):
     def a_client_event(self, sock, send_fail=False, imm_fail=False):
         """WRITE event on a client socket whose SYN was answered."""
         i = sock.owner
-        cid = self.cid_of_fd(i, sock.fd)
+        cid = self.cid_of_sock(i, sock)
         if cid is None:
             return None
         sock.kind = "established"
@@ -617,7 +659,7 @@ class Sim(World):
         """Error on a socket of a live transport. style: 'mask' (POLLERR), 'soerr' (SO_ERROR), 'rst' (recv raises),
         'eof' (recv returns b'')."""
         i = sock.owner
-        cid = self.cid_of_fd(i, sock.fd)
+        cid = self.cid_of_sock(i, sock)
         if cid is None:
             return None
         if style == "mask":
@@ -653,13 +695,13 @@ class Sim(World):
     def a_poll_idle(self, i, cid, imm_fail=False):
         """A WRITE event on the current socket of object cid (only if the code subscribed for WRITE)."""
         conn = self.conn_objs[i][cid]
-        fd = conn.fileno()
-        if fd is None:
+        sock = conn._TcpConnection__socket
+        if sock is None or sock.fd is None:
             return None
+        fd = sock.fd
         sub = self.sobjs[i]._poller.subs.get(fd)
         if sub is None or not (sub[1] & WRITE):
             return None
-        sock = self.fabric.socks[fd]
         if sock.kind == "connecting":
             return None               # not writable yet
         pj = self._peer_index(sock)
@@ -696,7 +738,7 @@ class Sim(World):
             self.cov["deliver.dead"] += 1
             return []
         i = dst.owner
-        cid = self.cid_of_fd(i, dst.fd)
+        cid = self.cid_of_sock(i, dst)
         if cid is None:
             self.cov["deliver.noconn"] += 1
             return []
@@ -734,10 +776,27 @@ class Sim(World):
                     live_ro.add(b[1])
         if term is None:
             dst.heard = self.fabric.now   # something arrived from the peer
+        # coverage: the first message names a member whose registered (closed) object last lived on the descriptor
+        # number this accepted socket has now (lowest-free allocation), so the D52 path calls disconnect() on it
+        reuse_old = None
+        t_i = self.transports[i]
+        if mks and mks[0][0] == "addr" and conn in t_i._unknownConnections:
+            old = t_i._connections.get(self.node(mks[0][1]))
+            if old is not None and old is not conn and old.state == 0 and self.last_fd.get(id(old)) == dst.fd:
+                reuse_old = old
+        was_connected = conn.state == 2
         before = len(self.fabric.socks)
         r, out = self.call(i, lambda: self.sobjs[i]._poller.fire(dst.fd, READ),
                            imm_fail=[pj] if f else (), send_outcomes=outcomes)
         self._stamp(i, before)
+        if reuse_old is not None and t_i._connections.get(self.node(mks[0][1])) is conn:
+            self.cov["guard.fd-reuse.stale-disconnect"] += 1
+        if r is False and was_connected and term is None and conn._TcpConnection__socket is dst:
+            self.extra_viol.append({
+                "signature": "transport.deliver:connected-but-deaf",
+                "what": "transport %d: data written by the peer arrived on the socket (descriptor %d) of CONNECTED "
+                        "connection object %d, but the poller has no subscription for that descriptor: nothing the peer "
+                        "sends is delivered" % (i, dst.fd, cid)})
         for o in out:
             if o[0] == "roConn" and o[1][1] in live_ro:
                 # C18 / C14: ids of read-only nodes are identities; two connected ones never share one
@@ -822,7 +881,7 @@ class Sim(World):
         cs.kind = "established"
         cs.dest = ("10.0.0.1", self.port(j))
         self.strangers.append(cs)
-        ss = FakeSock(self.fabric, j)
+        ss = FakeSock(self.fabric, j, alloc=False)
         ss.inc = self.incarnation[j]
         ss.kind = "established"
         w = Wire(cs, ss)
@@ -852,6 +911,7 @@ class Sim(World):
                 elif not silent:
                     s.close()
         self.incarnation[i] += 1
+        self.fabric.new_process(i, self.incarnation[i])
         self.conn_objs[i] = []
         self.view[i] = set()
         conf = self.sobjs[i].conf
@@ -895,6 +955,18 @@ class Sim(World):
                             v.append({"signature": "transport.registry:live-connection-of-non-member",
                                       "what": "transport %d holds a CONNECTED connection that delivers as %r, which is "
                                               "not (any more) a member" % (i, b)})
+            for cid, c in enumerate(self.conn_objs[i]):
+                sk = c._TcpConnection__socket
+                if c.state == 2 and sk is not None and sk.fd is not None:
+                    sub = self.sobjs[i]._poller.subs.get(sk.fd)
+                    if sub is None or not (sub[1] & READ) or getattr(sub[0], "__self__", None) is not c:
+                        b = self.bound_node(c)
+                        v.append({"signature": "transport.poller:connected-connection-not-polled",
+                                  "what": "transport %d: connection object %d (%s) is CONNECTED on descriptor %d but "
+                                          "that descriptor is not subscribed for reading with this object's handler: "
+                                          "%s can be reported connected and send() works while nothing received is "
+                                          "ever delivered" % (i, cid, "delivers as %r" % (b,) if b else "handshake",
+                                                              sk.fd, "the node" if b else "the peer")})
             for b, cnt in live.items():
                 if cnt > 1:
                     v.append({"signature": "transport.registry:two-live-connections",
